@@ -354,6 +354,7 @@ type c05Arr struct {
 }
 
 type c05Wire struct {
+	MTU  int `json:"mtu,omitempty"` // the receiver's MTU (its SACKs have to fit)
 	Opt vfOptMix `json:"opt,omitempty"` // options that must not matter here
 	IL   bool     `json:"il"`
 	RBuf int      `json:"rbuf"`
@@ -369,6 +370,7 @@ func genC05Wire(rt *rapid.T) c05Wire {
 	w := int(vfWindowFor(sc.RBuf))
 	sc.TSN = genTSN(rt, "tsn", uint32(w))
 	sc.Opt = genOptMix(rt, "opt")
+	sc.MTU = rapid.SampledFrom([]int{0, 0, 0, 100, 128, 300}).Draw(rt, "mtu")
 	n := rapid.IntRange(1, 40).Draw(rt, "n")
 	for i := 0; i < n; i++ {
 		a := c05Arr{GapMs: rapid.SampledFrom([]int{0, 0, 1, 5, 50, 250, 1000}).Draw(rt, "gapms"), N: 1}
@@ -395,6 +397,9 @@ func genC05Wire(rt *rapid.T) c05Wire {
 		if a.N > 1 && !a.Fwd && rapid.Bool().Draw(rt, "same") {
 			a.Same = true
 			a.Step = rapid.SampledFrom([]int{1, 1, 2, 0, -1}).Draw(rt, "step")
+			if a.Step == 0 && rapid.Bool().Draw(rt, "manydups") {
+				a.N = rapid.IntRange(10, 45).Draw(rt, "ndups") // a burst of duplicates in one packet
+			}
 		}
 		sc.Arr = append(sc.Arr, a)
 	}
@@ -403,7 +408,7 @@ func genC05Wire(rt *rapid.T) c05Wire {
 
 func runC05Wire(t *testing.T, sc c05Wire, verbose bool) (c vfCase) {
 	var e1 vfE1
-	e1.Cfg[0] = vfSideCfg{IL: sc.IL, TSN: 1000, RBuf: sc.RBuf, RTOMax: 2000}
+	e1.Cfg[0] = vfSideCfg{IL: sc.IL, TSN: 1000, RBuf: sc.RBuf, RTOMax: 2000, MTU: sc.MTU}
 	sc.Opt.apply(&e1.Cfg[0])
 	e1.Cfg[1] = vfSideCfg{IL: sc.IL, TSN: sc.TSN}
 	panicMsg := vfBubble(t, func() {
